@@ -79,6 +79,14 @@ static int batch_check(carquet_reader_t* rd, const table_t* t, const int* map, i
     int bad = 0; int g = 0; while (g < t->nrg && map[g] < 0) g++;
     int64_t* pos = (int64_t*)calloc((size_t)np, 8); int64_t* vpos = (int64_t*)calloc((size_t)np, 8); int64_t total = 0, want_total = 0; for (int q = 0; q < t->nrg; q++) want_total += t->rg_rows[q];
     int guard = 0;
+    /* a consumer may collect batches and look at them later ("pointers remain valid until the batch is freed"): up to three
+     * batches are kept while the reader moves on (other pages, other row groups) and are compared again before they are freed */
+    struct { carquet_row_batch_t* b; int g; int64_t nr; int64_t* pos0; int64_t* vpos0; } held[3]; int nheld = 0; int hold = batch_size % 4; if (hold > 3) hold = 3;
+#define RD_RECHECK_HELD(h_) do { for (int i_ = 0; i_ < np && !bad; i_++) { int mc_ = proj ? proj[i_] : i_; const tcol_t* col_ = &t->cols[mc_]; const tchunk_t* k_ = &t->rg[(h_).g][mc_]; const void* d_ = NULL; const uint8_t* bm_ = NULL; int64_t nv_ = -1; \
+        if (carquet_row_batch_column((h_).b, i_, &d_, &bm_, &nv_) != CARQUET_OK || nv_ != (h_).nr) { bad = 1; snprintf(key, sizeof key, "%s:held-batch-changed", keyprefix); v_viol(key, "%s col=%d", ctx, i_); break; } \
+        int64_t nn_ = 0; for (int64_t q_ = 0; q_ < (h_).nr; q_++) if (k_->def[(h_).pos0[i_] + q_] == col_->max_def) nn_++; \
+        if (!tbl_values_equal(col_, k_, (h_).vpos0[i_], nn_, d_)) { bad = 1; snprintf(key, sizeof key, "%s:held-batch-values-changed", keyprefix); v_viol(key, "%s batch_size=%d col=%d type=%d: a batch kept while %d later batches were fetched no longer holds its values", ctx, batch_size, i_, col_->type, hold); } } \
+        v_count("held_batches_rechecked"); carquet_row_batch_free((h_).b); free((h_).pos0); free((h_).vpos0); } while (0)
     while (!bad) { carquet_row_batch_t* b = NULL; carquet_status_t st = carquet_batch_reader_next(br, &b);
         if (st == CARQUET_ERROR_END_OF_DATA) break;
         if (st != CARQUET_OK || !b) { bad = 1; snprintf(key, sizeof key, "%s:batch-next-error", keyprefix); v_viol(key, "%s status=%d after %lld rows", ctx, st, (long long)total); break; }
@@ -91,6 +99,7 @@ static int batch_check(carquet_reader_t* rd, const table_t* t, const int* map, i
         if (g >= t->nrg) { bad = 1; snprintf(key, sizeof key, "%s:batch-extra-rows", keyprefix); v_viol(key, "%s batch of %lld rows after the table was exhausted", ctx, (long long)nr); carquet_row_batch_free(b); break; }
         if (nr > t->rg_rows[g] - pos[0] || nr > batch_size) { bad = 1; snprintf(key, sizeof key, "%s:batch-row-count", keyprefix); v_viol(key, "%s batch rows=%lld batch_size=%d left in group=%lld", ctx, (long long)nr, batch_size, (long long)(t->rg_rows[g] - pos[0])); carquet_row_batch_free(b); break; }
         if (pos[0] + nr < t->rg_rows[g] || pos[0] > 0) v_count("batches_splitting_row_group");
+        int64_t* pos0 = NULL, *vpos0 = NULL; if (hold) { pos0 = (int64_t*)malloc((size_t)np * 8); vpos0 = (int64_t*)malloc((size_t)np * 8); memcpy(pos0, pos, (size_t)np * 8); memcpy(vpos0, vpos, (size_t)np * 8); }
         for (int i = 0; i < np && !bad; i++) { int mc = proj ? proj[i] : i; const tcol_t* col = &t->cols[mc]; const tchunk_t* k = &t->rg[g][mc];
             const void* data = NULL; const uint8_t* bm = NULL; int64_t nv = -1; carquet_status_t cs = carquet_row_batch_column(b, i, &data, &bm, &nv);
             if (cs != CARQUET_OK) { bad = 1; snprintf(key, sizeof key, "%s:batch-column-error", keyprefix); v_viol(key, "%s col=%d status=%d", ctx, i, cs); break; }
@@ -104,7 +113,11 @@ static int batch_check(carquet_reader_t* rd, const table_t* t, const int* map, i
             if (!bad && !tbl_values_equal(col, k, vpos[i], nn, data)) { bad = 1; snprintf(key, sizeof key, "%s:batch-values-differ", keyprefix); v_viol(key, "%s batch_size=%d col=%d type=%d rep=%d rows %lld..%lld", ctx, batch_size, i, col->type, col->rep, (long long)pos[i], (long long)(pos[i] + nr)); }
             if (!bad) (void)tbl_touch(col, data, nn);
             pos[i] += nr; vpos[i] += nn; }
-        total += nr; v_count("batches_checked"); carquet_row_batch_free(b); }
+        total += nr; v_count("batches_checked");
+        if (!hold || bad) { carquet_row_batch_free(b); free(pos0); free(vpos0); }
+        else { if (nheld == hold) { RD_RECHECK_HELD(held[0]); for (int q = 1; q < nheld; q++) held[q - 1] = held[q]; nheld--; } held[nheld].b = b; held[nheld].g = g; held[nheld].nr = nr; held[nheld].pos0 = pos0; held[nheld].vpos0 = vpos0; nheld++; } }
+    for (int q = 0; q < nheld; q++) { if (!bad) RD_RECHECK_HELD(held[q]); else { carquet_row_batch_free(held[q].b); free(held[q].pos0); free(held[q].vpos0); } }
+#undef RD_RECHECK_HELD
     if (!bad && total != want_total) { bad = 1; snprintf(key, sizeof key, "%s:batch-total-rows", keyprefix); v_viol(key, "%s batch_size=%d delivered=%lld table=%lld", ctx, batch_size, (long long)total, (long long)want_total); }
     carquet_batch_reader_free(br); free(pos); free(vpos); free(idx); free(names); return bad;
 }
